@@ -284,3 +284,452 @@ func govcShow(v reflect.Value, depth int) string {
 	}
 	return "?"
 }
+
+// ---------------------------------------------------------------------------------------------------
+// transport-wide congestion control (C13, C02, C09)
+
+type govcTWCCCase struct {
+	symbols []uint16 // one per reported packet
+	dbytes  [][]byte // wire bytes of each delta, in order
+	fixed   [12]byte // sender, media, base seq (count is derived), ref time, fb count
+}
+
+func govcTWCCSymbols(r *rand.Rand) govcTWCCCase {
+	var c govcTWCCCase
+	n := 0
+	switch r.Intn(5) {
+	case 0:
+		n = 0
+	case 1:
+		n = 1 + r.Intn(3)
+	case 2:
+		n = 14 * (1 + r.Intn(3))
+	default:
+		n = r.Intn(60)
+	}
+	style := r.Intn(4)
+	for i := 0; i < n; {
+		s := uint16(r.Intn(4))
+		if style == 0 {
+			s = uint16(r.Intn(2))
+		} else if style == 1 {
+			s = 0
+		}
+		run := 1
+		if r.Intn(3) == 0 {
+			run = 1 + r.Intn(20)
+		}
+		for j := 0; j < run && i < n; j++ {
+			c.symbols = append(c.symbols, s)
+			i++
+		}
+	}
+	for _, s := range c.symbols {
+		switch s {
+		case 1:
+			c.dbytes = append(c.dbytes, []byte{govcU8(r)})
+		case 2:
+			v := govcU16(r)
+			c.dbytes = append(c.dbytes, []byte{byte(v >> 8), byte(v)})
+		}
+	}
+	r.Read(c.fixed[:])
+	return c
+}
+
+// govcTWCCChunks: one valid chunking of the status sequence (random mix of run-length and vector chunks; the
+// last chunk may overshoot the status count, the overshoot being arbitrary padding symbols).
+func govcTWCCChunks(r *rand.Rand, syms []uint16) []uint16 {
+	var out []uint16
+	for i := 0; i < len(syms); {
+		rest := syms[i:]
+		same := 1
+		for same < len(rest) && rest[same] == rest[0] {
+			same++
+		}
+		oneBit := 0
+		for oneBit < len(rest) && oneBit < 14 && rest[oneBit] <= 1 {
+			oneBit++
+		}
+		switch k := r.Intn(3); {
+		case k == 0 || (k == 1 && oneBit < 14 && oneBit < len(rest)):
+			if k == 0 {
+				// run length chunk over 1..same symbols, possibly overshooting at the very end
+				n := 1 + r.Intn(same)
+				w := rest[0]<<13 | uint16(n)
+				if n == len(rest) && r.Intn(2) == 0 {
+					w = rest[0]<<13 | uint16(n+r.Intn(100))
+				}
+				out = append(out, w)
+				i += n
+				continue
+			}
+			fallthrough
+		case k == 2:
+			w := uint16(1)<<15 | 1<<14
+			for j := 0; j < 7; j++ {
+				s := uint16(r.Intn(4))
+				if j < len(rest) {
+					s = rest[j]
+				}
+				w |= s << uint(2*(6-j))
+			}
+			out = append(out, w)
+			i += 7
+		default:
+			w := uint16(1) << 15
+			for j := 0; j < 14; j++ {
+				s := uint16(r.Intn(2))
+				if j < len(rest) {
+					s = rest[j]
+				}
+				w |= s << uint(13-j)
+			}
+			out = append(out, w)
+			i += 14
+		}
+	}
+	return out
+}
+
+func govcTWCCBytes(r *rand.Rand, c govcTWCCCase, chunks []uint16, extraPad bool) []byte {
+	b := make([]byte, 20)
+	copy(b[4:12], c.fixed[:8])
+	b[12], b[13] = c.fixed[8], c.fixed[9]
+	b[14], b[15] = byte(len(c.symbols)>>8), byte(len(c.symbols))
+	b[16], b[17], b[18], b[19] = c.fixed[10], c.fixed[11], c.fixed[0], c.fixed[1]
+	for _, w := range chunks {
+		b = append(b, byte(w>>8), byte(w))
+	}
+	for _, d := range c.dbytes {
+		b = append(b, d...)
+	}
+	pad := (4 - len(b)%4) % 4
+	if extraPad {
+		pad += 4
+	}
+	for j := 0; j < pad; j++ {
+		b = append(b, 0)
+	}
+	b[0], b[1] = 0x80|15, 205
+	if pad > 0 {
+		b[0] |= 0x20
+		b[len(b)-1] = byte(pad)
+	}
+	b[2], b[3] = byte((len(b)/4-1)>>8), byte(len(b)/4-1)
+	return b
+}
+
+// genTWCCRaw: mostly valid feedback packets (all chunk kinds, zero counts, chunks ending exactly at the packet
+// end, overshooting last chunks), some with octets flipped, cut short or with a changed length field.
+func genTWCCRaw(r *rand.Rand, i int) []byte {
+	c := govcTWCCSymbols(r)
+	raw := govcTWCCBytes(r, c, govcTWCCChunks(r, c.symbols), r.Intn(8) == 0)
+	switch r.Intn(10) {
+	case 0:
+		for j := 0; j < 1+r.Intn(3); j++ {
+			raw[r.Intn(len(raw))] ^= byte(1 << uint(r.Intn(8)))
+		}
+	case 1:
+		raw = raw[:r.Intn(len(raw)+1)]
+	case 2:
+		raw[3] = byte(int(raw[3]) + r.Intn(3) - 1)
+	case 3:
+		raw = append(raw, make([]byte, 4*r.Intn(3))...) // trailing octets beyond the declared length
+	}
+	return raw
+}
+
+// genTWCCTwoChunkings: the same statuses and deltas under two independently chosen chunkings.
+func genTWCCTwoChunkings(r *rand.Rand, i int) ([]byte, []byte) {
+	c := govcTWCCSymbols(r)
+	return govcTWCCBytes(r, c, govcTWCCChunks(r, c.symbols), false), govcTWCCBytes(r, c, govcTWCCChunks(r, c.symbols), false)
+}
+
+// genTWCC: a packet value built field by field (not through the decoder) with a header consistent with its content.
+func genTWCC(r *rand.Rand, i int) TransportLayerCC {
+	c := govcTWCCSymbols(r)
+	chunks := govcTWCCChunks(r, c.symbols)
+	raw := govcTWCCBytes(r, c, chunks, false)
+	p := TransportLayerCC{
+		Header:     Header{Padding: raw[0]&0x20 != 0, Count: FormatTCC, Type: TypeTransportSpecificFeedback, Length: uint16(len(raw)/4 - 1)},
+		SenderSSRC: be32(raw, 4), MediaSSRC: be32(raw, 8), BaseSequenceNumber: be16(raw, 12), PacketStatusCount: uint16(len(c.symbols)),
+		ReferenceTime: be24(raw, 16), FbPktCount: raw[19],
+	}
+	for _, w := range chunks {
+		switch {
+		case w>>15 == 0:
+			p.PacketChunks = append(p.PacketChunks, &RunLengthChunk{Type: TypeTCCRunLengthChunk, PacketStatusSymbol: w >> 13 & 3, RunLength: w & 0x1FFF})
+		case w>>14&1 == 0:
+			p.PacketChunks = append(p.PacketChunks, &StatusVectorChunk{Type: TypeTCCStatusVectorChunk, SymbolSize: TypeTCCSymbolSizeOneBit, SymbolList: specTWCCChunkSymbols(w)})
+		default:
+			p.PacketChunks = append(p.PacketChunks, &StatusVectorChunk{Type: TypeTCCStatusVectorChunk, SymbolSize: TypeTCCSymbolSizeTwoBit, SymbolList: specTWCCChunkSymbols(w)})
+		}
+	}
+	k := 0
+	for _, s := range c.symbols {
+		switch s {
+		case 1:
+			p.RecvDeltas = append(p.RecvDeltas, &RecvDelta{Type: TypeTCCPacketReceivedSmallDelta, Delta: 250 * int64(c.dbytes[k][0])})
+			k++
+		case 2:
+			p.RecvDeltas = append(p.RecvDeltas, &RecvDelta{Type: TypeTCCPacketReceivedLargeDelta, Delta: 250 * int64(int16(uint16(c.dbytes[k][0])<<8|uint16(c.dbytes[k][1])))})
+			k++
+		}
+	}
+	return p
+}
+
+// ---------------------------------------------------------------------------------------------------
+// SDES, CCFB and datagram level (C02, C03, C05, C06, C07, C09)
+
+func govcText(r *rand.Rand) string {
+	n := 0
+	switch r.Intn(6) {
+	case 0:
+		n = 0
+	case 1:
+		n = 255
+	case 2:
+		n = 1 + r.Intn(4)
+	default:
+		n = r.Intn(40)
+	}
+	b := make([]byte, n)
+	r.Read(b)
+	return string(b)
+}
+
+func govcSDES(r *rand.Rand, wellFormed bool) SourceDescription {
+	var p SourceDescription
+	nc := r.Intn(4)
+	if r.Intn(10) == 0 {
+		nc = 31
+	}
+	for i := 0; i < nc; i++ {
+		c := SourceDescriptionChunk{Source: govcU32(r)}
+		for j := r.Intn(4); j > 0; j-- {
+			c.Items = append(c.Items, SourceDescriptionItem{Type: SDESType(1 + r.Intn(255)), Text: govcText(r)})
+		}
+		p.Chunks = append(p.Chunks, c)
+	}
+	if !wellFormed {
+		switch r.Intn(3) {
+		case 0:
+			for len(p.Chunks) < 32 {
+				p.Chunks = append(p.Chunks, SourceDescriptionChunk{Source: govcU32(r)})
+			}
+		case 1:
+			p.Chunks = append(p.Chunks, SourceDescriptionChunk{Items: []SourceDescriptionItem{{Type: SDESEnd, Text: "x"}}})
+		default:
+			p.Chunks = append(p.Chunks, SourceDescriptionChunk{Items: []SourceDescriptionItem{{Type: SDESCNAME, Text: string(make([]byte, 256+r.Intn(3)))}}})
+		}
+	}
+	return p
+}
+
+func genSDES(r *rand.Rand, i int) SourceDescription { return govcSDES(r, i%8 != 7) }
+
+func govcMutate(r *rand.Rand, raw []byte) []byte {
+	if len(raw) == 0 {
+		return raw
+	}
+	switch r.Intn(6) {
+	case 0:
+		for j := 0; j < 1+r.Intn(3); j++ {
+			raw[r.Intn(len(raw))] ^= byte(1 << uint(r.Intn(8)))
+		}
+	case 1:
+		raw = raw[:r.Intn(len(raw)+1)]
+	case 2:
+		if len(raw) >= 4 {
+			raw[3] = byte(int(raw[3]) + r.Intn(3) - 1)
+		}
+	}
+	return raw
+}
+
+func genSDESRaw(r *rand.Rand, i int) []byte {
+	raw, err := govcSDES(r, true).Marshal()
+	if err != nil {
+		return nil
+	}
+	return govcMutate(r, raw)
+}
+
+func govcCCFB(r *rand.Rand, allowSingletons bool) CCFeedbackReport {
+	p := CCFeedbackReport{SenderSSRC: govcU32(r), ReportTimestamp: govcU32(r)}
+	for nb := r.Intn(4); nb > 0; nb-- {
+		blk := CCFeedbackReportBlock{MediaSSRC: govcU32(r), BeginSequence: govcU16(r)}
+		n := govcLen(r)
+		if n == 1 && !allowSingletons {
+			n = 2
+		}
+		if int(blk.BeginSequence)+n > 65535 {
+			blk.BeginSequence = uint16(65535 - n)
+		}
+		for j := 0; j < n; j++ {
+			m := CCFeedbackMetricBlock{}
+			if r.Intn(3) != 0 {
+				m = CCFeedbackMetricBlock{Received: true, ECN: ECN(r.Intn(4)), ArrivalTimeOffset: govcU16(r) & 0x1FFF}
+			}
+			blk.MetricBlocks = append(blk.MetricBlocks, m)
+		}
+		p.ReportBlocks = append(p.ReportBlocks, blk)
+	}
+	return p
+}
+
+func genCCFB(r *rand.Rand, i int) CCFeedbackReport { return govcCCFB(r, true) }
+
+func genCCFBRaw(r *rand.Rand, i int) []byte {
+	raw, err := govcCCFB(r, true).Marshal()
+	if err != nil {
+		return nil
+	}
+	return govcMutate(r, raw)
+}
+
+func govcRR(r *rand.Rand) ReceptionReport {
+	return ReceptionReport{SSRC: govcU32(r), FractionLost: govcU8(r), TotalLost: govcU32(r) & 0xFFFFFF, LastSequenceNumber: govcU32(r),
+		Jitter: govcU32(r), LastSenderReport: govcU32(r), Delay: govcU32(r)}
+}
+
+// govcAlignedXR: an extended report whose blocks occupy whole 32-bit words and whose type-specific fields are
+// representable (the documented scope of the round trip).
+func govcAlignedXR(r *rand.Rand) *ExtendedReport {
+	x := govcXR(r, 100)
+	for _, b := range x.Reports {
+		switch v := b.(type) {
+		case *LossRLEReportBlock:
+			v.T &= 15
+			if len(v.Chunks)%2 != 0 {
+				v.Chunks = append(v.Chunks, 0)
+			}
+		case *DuplicateRLEReportBlock:
+			v.T &= 15
+			if len(v.Chunks)%2 != 0 {
+				v.Chunks = append(v.Chunks, 0)
+			}
+		case *PacketReceiptTimesReportBlock:
+			v.T &= 15
+		case *UnknownReportBlock:
+			v.Bytes = v.Bytes[:len(v.Bytes)/4*4]
+		}
+	}
+	return &x
+}
+
+// govcPacket: a well-formed packet of kind k (0..14).
+func govcPacket(r *rand.Rand, k int) Packet {
+	switch k {
+	case 0:
+		p := &SenderReport{SSRC: govcU32(r), NTPTime: uint64(govcU32(r))<<32 | uint64(govcU32(r)), RTPTime: govcU32(r), PacketCount: govcU32(r), OctetCount: govcU32(r)}
+		for n := r.Intn(4); n > 0; n-- {
+			p.Reports = append(p.Reports, govcRR(r))
+		}
+		if r.Intn(3) == 0 {
+			p.ProfileExtensions = make([]byte, r.Intn(9))
+			r.Read(p.ProfileExtensions)
+		}
+		return p
+	case 1:
+		p := &ReceiverReport{SSRC: govcU32(r)}
+		for n := r.Intn(4); n > 0; n-- {
+			p.Reports = append(p.Reports, govcRR(r))
+		}
+		if r.Intn(3) == 0 {
+			p.ProfileExtensions = make([]byte, r.Intn(9))
+			r.Read(p.ProfileExtensions)
+		}
+		return p
+	case 2:
+		p := govcSDES(r, true)
+		return &p
+	case 3:
+		p := &Goodbye{Reason: govcText(r)}
+		for n := r.Intn(4); n > 0; n-- {
+			p.Sources = append(p.Sources, govcU32(r))
+		}
+		return p
+	case 4:
+		d := make([]byte, r.Intn(12))
+		r.Read(d)
+		return &ApplicationDefined{SubType: uint8(r.Intn(32)), SSRC: govcU32(r), Name: string([]byte{byte(32 + r.Intn(90)), byte(32 + r.Intn(90)), byte(32 + r.Intn(90)), byte(32 + r.Intn(90))}), Data: d}
+	case 5:
+		p := &TransportLayerNack{SenderSSRC: govcU32(r), MediaSSRC: govcU32(r)}
+		for n := 1 + r.Intn(3); n > 0; n-- {
+			p.Nacks = append(p.Nacks, NackPair{PacketID: govcU16(r), LostPackets: PacketBitmap(govcU16(r))})
+		}
+		return p
+	case 6:
+		return &RapidResynchronizationRequest{SenderSSRC: govcU32(r), MediaSSRC: govcU32(r)}
+	case 7:
+		return &PictureLossIndication{SenderSSRC: govcU32(r), MediaSSRC: govcU32(r)}
+	case 8:
+		p := &SliceLossIndication{SenderSSRC: govcU32(r), MediaSSRC: govcU32(r)}
+		for n := 1 + r.Intn(3); n > 0; n-- {
+			p.SLI = append(p.SLI, SLIEntry{First: govcU16(r) & 0x1FFF, Number: govcU16(r) & 0x1FFF, Picture: govcU8(r) & 0x3F})
+		}
+		return p
+	case 9:
+		p := &FullIntraRequest{SenderSSRC: govcU32(r), MediaSSRC: govcU32(r)}
+		for n := 1 + r.Intn(3); n > 0; n-- {
+			p.FIR = append(p.FIR, FIREntry{SSRC: govcU32(r), SequenceNumber: govcU8(r)})
+		}
+		return p
+	case 10:
+		// bitrates below 1 bit/s have mantissa 0 on the wire: the recorded REMB finding (C14, C04), kept out of the list lemmas
+		p := &ReceiverEstimatedMaximumBitrate{SenderSSRC: govcU32(r), Bitrate: 1 + float32(r.Int63n(1<<40))*float32(r.Intn(5))}
+		for n := r.Intn(4); n > 0; n-- {
+			p.SSRCs = append(p.SSRCs, govcU32(r))
+		}
+		return p
+	case 11:
+		p := genTWCC(r, 0)
+		return &p
+	case 12:
+		p := govcCCFB(r, false)
+		return &p
+	case 13:
+		return govcAlignedXR(r)
+	default:
+		n := 4 * r.Intn(5)
+		b := make([]byte, 4+n)
+		r.Read(b)
+		pts := []byte{192, 193, 195, 199, 208, 210, 255, 0}
+		b[0], b[1], b[2], b[3] = 0x80|b[0]&0x1F, pts[r.Intn(len(pts))], 0, byte(n/4)
+		rp := RawPacket(b)
+		return &rp
+	}
+}
+
+// genPacketList: lists of 1..5 well-formed packets over all 15 packet kinds, in any order.
+func genPacketList(r *rand.Rand, i int) []Packet {
+	if i < 15 {
+		return []Packet{govcPacket(r, i)}
+	}
+	var ps []Packet
+	for n := 1 + r.Intn(5); n > 0; n-- {
+		ps = append(ps, govcPacket(r, r.Intn(15)))
+	}
+	return ps
+}
+
+// genDatagram: encodings of such lists, sometimes mutated, cut or spliced.
+func genDatagram(r *rand.Rand, i int) []byte {
+	raw, err := Marshal(genPacketList(r, i))
+	if err != nil {
+		return nil
+	}
+	if r.Intn(3) == 0 {
+		raw = govcMutate(r, raw)
+	}
+	if r.Intn(10) == 0 {
+		other, err := Marshal(genPacketList(r, 100))
+		if err == nil {
+			raw = append(raw[:len(raw)/4/2*4], other...)
+		}
+	}
+	return raw
+}
